@@ -35,14 +35,14 @@ class patched:
     def __init__(s, sym): s.sym = sym
     def __enter__(s):
         U = utils()
-        s.saved = {k: U.__dict__.get(k, None) for k in ('np', 'str', 'int')}
-        s.had = {k: k in U.__dict__ for k in ('np', 'str', 'int')}
+        s.saved = {k: U.__dict__.get(k, None) for k in ('np', 'str', 'int', 'float')}
+        s.had = {k: k in U.__dict__ for k in ('np', 'str', 'int', 'float')}
         if s.sym:
-            U.np = NPFacade(); U.str = decstr.sym_str; U.int = core.sym_int
+            U.np = NPFacade(); U.str = decstr.sym_str; U.int = core.sym_int; U.float = core.sym_float
         return U
     def __exit__(s, *a):
         U = utils()
-        for k in ('np', 'str', 'int'):
+        for k in ('np', 'str', 'int', 'float'):
             if s.had[k]: setattr(U, k, s.saved[k])
             elif k in U.__dict__: delattr(U, k)
 
@@ -157,7 +157,72 @@ def execute(cfg, V):
             numeral_obligations(V, R, ar, ar, kr, p, False, 'real part', -15 <= kr <= 14, obs)
             numeral_obligations(V, I, ai, ai, ki, p, False, 'imaginary part', -15 <= ki <= 14, obs)
             return obs
+        if kind == 'polar':
+            return polar_obligations(cfg, V, U)
     raise KeyError(kind)
+
+
+DIRS = {'zero': (1, 0), 'pi': (-1, 2), 'half': (1j, 1), '-half': (-1j, -1)}      # direction -> (unit, angle in quarter turns)
+
+
+def polar_obligations(cfg, V, U):
+    """magnitude / angle rendering of z = rho * e^{j theta}: rho symbolic in decade k; theta exact (0, pi, +-pi/2) or a symbolic angle
+    in (-pi, pi] (radians) / (-180, 180] (degrees).  The (abs, angle) contract stub is told the decomposition the harness built."""
+    import cmath
+    k, p, deg, dr = cfg['k'], cfg['p'], cfg['deg'], cfg['dir']
+    obs = []
+    rho_v, rho = value_in_decade(V, 'rho', k, False)
+    P = core.XInt(p) if V.sym else p
+    if V.sym:
+        pi = core.sym_pi()
+        if dr == 'sym':
+            th = V.val('theta', 'r')               # the displayed angle (in the requested unit)
+            half = 180 if deg else pi
+            V.assume_pos(th + half); V.assume_pos_nonstrict(half - th)
+            rad = th * pi / 180 if deg else th
+            u = core.unit_of_angle(rad)
+        else:
+            c, q = DIRS[dr]
+            u = SC.lift(c); rad = pi * F(q, 2); th = SC.lift(90 * q) if deg else rad
+        z = rho * u
+        core.CTX.extra.setdefault('polar', {})[z.p.key()] = (rho, rad, u)
+    else:
+        if dr == 'sym':
+            th = V.val('theta', 'r'); rad = math.radians(th) if deg else th
+            if not (-math.pi < rad <= math.pi): return []          # outside the precondition (the symbolic pi is an interval)
+            z = rho * cmath.exp(1j * rad)
+        else:
+            c, q = DIRS[dr]
+            z = complex(rho * c); rad = math.pi * q / 2; th = 90.0 * q if deg else rad
+    text = U.ScientificComplex(value=z, precision=P, use_exp_prefix=cfg['prefix'], polar=True, deg=deg).__str__()
+    nd_min = 2 if deg else 4
+    thr = (F(1, 100) if deg else F(1, 10 ** 4)) if V.sym else (1e-2 if deg else 1e-4)
+    mag, sep, ang = text.partition('∠')
+    numeral_obligations(V, mag, rho, rho, k, p, False, 'magnitude', -15 <= k <= 14, obs)
+    if not sep:
+        # the angle may be omitted only when it is below one unit of the last angle digit that would be shown
+        obs.append(Ob('angle omitted only when negligible (upper)', thr - th, [1], rel='ge'))
+        obs.append(Ob('angle omitted only when negligible (lower)', thr + th, [1], rel='ge'))
+        return obs
+    if deg:
+        obs.append(Ob(f'degree sign after the angle ({ang!r})', 0 if ang.endswith('°') else 1))
+        ang = ang[:-1] if ang.endswith('°') else ang
+    if V.sym:
+        m = re.fullmatch('\x02(\\d+)\\|\\.(\\d+)f\x03', ang)
+        if not m:
+            obs.append(Ob(f'angle is a fixed-point numeral ({ang!r})', 1)); return obs
+        shown = core.CTX.extra['tokens'][int(m.group(1))][1]; nd = int(m.group(2))
+        obs.append(Ob(f'angle digits >= {nd_min}', 0 if nd >= nd_min else 1))
+        obs.append(Ob('the rendered angle is the angle of the value, with its sign', shown - th, [th, 1]))
+    else:
+        m = re.fullmatch('-?\\d+\\.(\\d+)', ang)
+        if not m:
+            obs.append(Ob(f'angle is a fixed-point numeral ({ang!r})', 1)); return obs
+        nd = len(m.group(1))
+        obs.append(Ob(f'angle digits >= {nd_min}', 0 if nd >= nd_min else 1))
+        err = abs(float(ang) - th)
+        obs.append(Ob('the rendered angle is the angle of the value, with its sign', 0 if err <= 0.5 * 10.0 ** (-nd) * (1 + 1e-6) + 1e-12 else err))
+    return obs
 
 
 def worker(cfg):
@@ -236,6 +301,11 @@ def configs(tier, seed):
                 for compact in (False, True):
                     for p in (2, 3):
                         cfgs.append({'kind': 'complex', 'kr': kr, 'ki': ki, 'p': p, 'nr': nr, 'ni': ni, 'compact': compact, 'prefix': compact})
+    for k in ((-5, 0, 1, 4) if tier == 'quick' else range(-15, 15)):
+        for p in ((2, 3, 4) if tier == 'quick' else (1, 2, 3, 4, 5, 6)):
+            for deg in (False, True):
+                for dr in ('sym', 'zero', 'pi', 'half', '-half'):
+                    cfgs.append({'kind': 'polar', 'k': k, 'p': p, 'deg': deg, 'dir': dr, 'prefix': (k + p) % 2 == 0})
     cfgs.append({'kind': 'float', 'k': 2, 'p': 3, 'prefix': False, 'neg': False, 'twin': True})
     return cfgs, None
 
@@ -252,11 +322,12 @@ def main(tier):
     from harness import C18_ch_run
     C18_ch_run.run(rep, tier)
     return rep.finish(
-        explanation='bounded symbolic verification: the real formatting code is executed on a symbolic real value per decade (10^k <= |v| < 10^(k+1), k = -17..16), precision, prefix mode and sign; str(float) / format(float) follow the decimal-numeral contract, np.round / int / %1 are contract stubs on a decimal grid, integer formatting yields tokens that the numeral parser maps back; z3 (QF_LRA) shows on every path (all rounding-carry regions explored) that the rendered text denotes a number within half a unit of the p-th significant digit, with an exponent that is a multiple of three, a mantissa between 1 and 1000 and well-formed fraction digits, that infinity appears only beyond the range with the right sign, and that the complex rendering has the layout [sign]R[+/-]jI built from the renderings of |re| and |im|; CrossHair confirms the prefix / extension logic for arbitrary integer exponents',
+        explanation='bounded symbolic verification: the real formatting code is executed on a symbolic real value per decade (10^k <= |v| < 10^(k+1), k = -17..16), precision, prefix mode and sign; str(float) / format(float) follow the decimal-numeral contract, np.round / int / %1 are contract stubs on a decimal grid, integer formatting yields tokens that the numeral parser maps back; z3 (QF_LRA) shows on every path (all rounding-carry regions explored) that the rendered text denotes a number within half a unit of the p-th significant digit, with an exponent that is a multiple of three, a mantissa between 1 and 1000 and well-formed fraction digits, that infinity appears only beyond the range with the right sign, that the complex rendering has the layout [sign]R[+/-]jI built from the renderings of |re| and |im|, and that the polar rendering is <magnitude numeral>∠<angle> with the magnitude accurate at the requested precision, the angle token being the angle of the value (sign included, >= 4 decimals in radians / 2 in degrees) and omitted only when negligible; CrossHair confirms the prefix / extension logic for arbitrary integer exponents',
         assumptions=['floats are treated as reals and str(float) / format(float) as the exact decimal expansion (binary representation error of the digits and the C routine behind str are outside the model; the model is validated against the real str()/format() on a concrete sweep)',
                      'np.round(x, d) returns a multiple of 10^-d within half a step of x; int() truncates; x % 1 is the fractional part',
-                     'the in-range decades are 1e-15 <= |v| < 1e15; "between 1 and 1000" is inclusive', 'polar / degree rendering of complex values (Python\'s own float formatting of the angle) is not discharged'],
+                     'the in-range decades are 1e-15 <= |v| < 1e15; "between 1 and 1000" is inclusive', 'polar form: format(angle, ".Nf") is modelled as a numeral within half a unit of its last decimal of the value handed to it (Python\'s own float formatting is trusted); (abs, angle) of z = rho*e^{j theta} follow the contract |z| = rho, angle = theta for theta in (-pi, pi]; an omitted angle must be below one unit of the last angle decimal'],
         bounds={'decades': 'k = -17 .. 16', 'precision': list(range(1, 5)) if tier == 'quick' else list(range(1, 7)), 'prefix mode': [False, True], 'sign': ['+', '-'],
-                'complex': '7 decade pairs x 4 quadrants x compact x precision 2,3'},
+                'complex': '7 decade pairs x 4 quadrants x compact x precision 2,3',
+                'polar': ('decades -5,0,1,4; precision 2,3,4' if tier == 'quick' else 'decades -15..14; precision 1..6') + '; radians and degrees; angle symbolic in (-pi, pi] and exactly 0, pi, +-pi/2'},
         exhaustive=True,
         trusted=['z3 QF_LRA', 'symx executor', 'symx/decstr.py numeral model', 'CrossHair 0.0.110'])
